@@ -139,4 +139,24 @@ func c11R3(c *engine.Ctx) {
 			"ige.DecryptBlocks (panics on a partial block) must be guarded by len(buf) %% blockSize == 0")
 	}
 	c.Floor("C11.R3", 1, len(calls))
+	// R4: a mismatch must come back as an error, not as a panic: every slice
+	// expression on the guessing path has proven bounds (the candidate
+	// data_with_hash[20 : len-i] shrinks below the hash for short inputs)
+	bd := engine.NewBounds()
+	sites := 0
+	for _, name := range []string{"GuessDataWithHash", "DecryptExchangeAnswer"} {
+		f := c.MustFunc("C11.R4", "crypto", name)
+		if f == nil {
+			continue
+		}
+		issues, n := bd.CheckFunc(f)
+		sites += n
+		for _, is := range issues {
+			c.Fail("C11.R4", name+"/"+is.What+"#"+ordinal(f, is.Instr), is.Instr.Pos(), "%s", is.Detail)
+		}
+		if len(issues) == 0 {
+			c.Pass("C11.R4", name+"/bounds", f.Pos(), "%d slice/index sites with proven bounds", n)
+		}
+	}
+	c.Floor("C11.R4", 2, sites)
 }
